@@ -280,6 +280,33 @@ def check_walk(ctx, rep, rule='T-walk'):
         rep.ob(rule, 'walk-step:%s' % p.end, ok,
                'one walk step must be: mark(pos); pos = other_pos(pos); mark(pos); push(point(pos)); get_next_pos(pos, ..) with the contour\'s '
                'id; found %s' % detail, loc=b.loc(b.j['line_lo']), reason='provenance')
+        # exits of the walk: it stops exactly when the vertex has no unprocessed continuation, or when it is back at the point
+        # the contour started from; nothing else may end or prolong a contour
+        if nexts:
+            gi = p.events.index(nexts[0])
+            has_next = closed = None
+            other = []
+            for e in p.events[gi:]:
+                if e['k'] != 'branch' or e.get('depth', 0) != 0:
+                    continue
+                v = strip_upd(e['val'])
+                if v[0] == 'discr' and noepoch(strip_upd(v[1])) == noepoch(strip_upd(nexts[0]['ret'])):
+                    has_next = (e['cond'] == ('eq', 1))
+                elif v[0] == 'op' and v[1] in ('eq', 'ne') and len(v) == 4:
+                    ia, ib = event_index(v[2], p), event_index(v[3], p)
+                    pa, pb = show(noepoch(v[2])), show(noepoch(v[3]))
+                    if pa.endswith('.point') and pb.endswith('.point') and {ia, ib} == {'next(other(pos))', 'i'}:
+                        closed = e['cond'][1] if v[1] == 'eq' else (not e['cond'][1])
+                    else:
+                        other.append(show(noepoch(v))[:70])
+                else:
+                    other.append(show(noepoch(v))[:70])
+            stays = (p.end == 'backedge' and p.end_info == inner)
+            exp_stays = (has_next is True and closed is False)
+            rep.ob(rule, 'walk-exit:%s' % ('continues' if stays else 'ends'), not other and stays == exp_stays,
+                   'the walk of a contour must end exactly when get_next_pos returns None or the next event is back at the contour\'s '
+                   'first point; this path %s with next=%s, back-at-start=%s, and also tests %s'
+                   % ('continues' if stays else 'ends', has_next, closed, other), loc=b.loc(nexts[0]['line']), reason='dominance')
         # the finished contour is appended
         if p.end == 'backedge' and p.end_info == outer:
             fin = [e for e in body if e['callee'].endswith('::push') and 'points' not in show(noepoch(e['args'][0]))]
